@@ -8,6 +8,7 @@ import (
 	"fmt"
 	"os"
 	"strconv"
+	"strings"
 	"sync/atomic"
 	"time"
 
@@ -44,22 +45,36 @@ func c13Explore(args []string) {
 		// replay one schedule, twice, and report
 		var choices []int
 		json.Unmarshal([]byte(args[4]), &choices)
-		var sites [2][]string
-		var whats [2]string
-		for k := 0; k < 2; k++ {
+		// The schedule is run up to four times in this fresh process and counts as reproduced when two consecutive runs
+		// show the same violation at the same sequence of sites. (State that the library keeps between calls - a pool, a
+		// free list, a cache - is empty in the first run of a process and was not when the explorer found the schedule;
+		// the later runs are the warmed-up process.)
+		var sites [4][]byte
+		var whats [4]string
+		for k := 0; k < 4; k++ {
 			bodies, check := sc()
 			e := sched.Run(choices, bodies)
 			whats[k] = check()
-			sites[k] = e.Sites()
+			sites[k], _ = json.Marshal(e.Sites())
 			if e.Diverged != "" {
 				whats[k] = "DIVERGED: " + e.Diverged
 			}
+			if k > 0 && whats[k] != "" && !strings.HasPrefix(whats[k], "DIVERGED") && whats[k] == whats[k-1] && bytes.Equal(sites[k], sites[k-1]) {
+				out.Replayed = true
+				out.Viol = append(out.Viol, c13Viol{What: whats[k], Choices: choices})
+				break
+			}
+			if k == 1 && whats[0] == "" && whats[1] == "" {
+				break
+			}
 		}
-		s0, _ := json.Marshal(sites[0])
-		s1, _ := json.Marshal(sites[1])
-		out.Replayed = whats[0] == whats[1] && bytes.Equal(s0, s1)
-		if whats[0] != "" {
-			out.Viol = append(out.Viol, c13Viol{What: whats[0], Choices: choices})
+		if !out.Replayed {
+			for k := range whats {
+				if whats[k] != "" {
+					out.Viol = append(out.Viol, c13Viol{What: whats[k], Choices: choices})
+					break
+				}
+			}
 		}
 		b, _ := json.Marshal(out)
 		os.Stdout.Write(append(b, '\n'))
